@@ -863,8 +863,21 @@ def hd_sizes_ok(case):
 def gen_valid(rng, flavour=None, tries=400):
     for _ in range(tries):
         try:
-            case = (make_zero_case(rng) if flavour == 'zero0' else
-                    make_cancel_case(rng) if flavour == 'cancel' else make_case(rng, flavour))
+            if flavour == 'cshist':
+                # non-colored complex-step partials after a user-driven complex step:
+                # force_alloc_complex, do_coloring=False or has_diag_partials, array variables
+                case = make_case(rng, None)
+                case['manual'] = None
+                case['fac'] = True
+                case['cs_hist'] = True
+                if not case['hd']:
+                    case['do_coloring'] = False
+                case['flavour'] = 'cshist'
+            else:
+                case = (make_zero_case(rng) if flavour == 'zero0' else
+                        make_cancel_case(rng) if flavour == 'cancel' else make_case(rng, flavour))
+                if case['fac'] and rng.random() < 0.5:
+                    case['cs_hist'] = True      # same history on whatever path the case takes
             if case['hd'] and not hd_sizes_ok(case):
                 continue
             for o in case['outs']:
@@ -1023,6 +1036,8 @@ class C14(Property):
                 flavour = 'zero0'      # targeted family first: zero-valued inputs at the first point
             elif i < 2 * nz:
                 flavour = 'cancel'     # size-1 outputs whose gradient row sums to exactly zero
+            elif i < 2 * nz + (30 if tier == 'quick' else 450):
+                flavour = 'cshist'     # partials after a user-driven complex step
             case = gen_valid(rng, flavour)
             if case is not None:
                 yield case
@@ -1102,6 +1117,28 @@ class C14(Property):
                     res['outs'].append({o['name']: np.asarray(p.get_val('c.' + o['name']),
                                                               dtype=float).ravel().tolist()
                                         for o in case['outs']})
+                    if case.get('cs_hist') and case['fac']:
+                        # user-driven complex step through the public API, then back to the same
+                        # real point WITHOUT a real run_model: the partials asked for next must
+                        # not depend on that history
+                        h = 1e-40
+                        p.set_complex_step_mode(True)
+                        k = 0
+                        for v in case['ins']:
+                            val = np.array([float(unrat(s)) for s in v['vals'][pt]],
+                                           dtype=complex)
+                            val += 1j * h * (1.0 + np.arange(k, k + val.size))
+                            k += val.size
+                            p.set_val('ivc.' + v['name'], val.reshape(v['shape']))
+                        p.run_model()
+                        p.set_complex_step_mode(False)
+                        for v in case['ins']:
+                            val = np.array([float(unrat(s)) for s in v['vals'][pt]])
+                            p.set_val('ivc.' + v['name'], val.reshape(v['shape']))
+                        res.setdefault('outs_after_cs', []).append(
+                            {o['name']: np.asarray(p.get_val('c.' + o['name']),
+                                                   dtype=float).ravel().tolist()
+                             for o in case['outs']})
                     tot = p.compute_totals(of=of, wrt=wrt)
                     res['J'].append({o['name']: {v['name']: np.asarray(
                         tot['c.' + o['name'], 'ivc.' + v['name']], dtype=float).tolist()
@@ -1160,6 +1197,13 @@ class C14(Property):
                     return {'what': 'output differs from NumPy evaluation of the expression',
                             'kind': 'value', 'pt': pt, 'out': o['name'], 'got': got,
                             'expected': npv[o['name']].tolist()}
+            if impl.get('outs_after_cs'):
+                for o in case['outs']:
+                    got = impl['outs_after_cs'][pt][o['name']]
+                    if not close(got, npv[o['name']]):
+                        return {'what': 'output changed by a complex-step evaluation that was '
+                                'switched off again', 'kind': 'value-after-cs', 'pt': pt,
+                                'out': o['name'], 'got': got, 'expected': npv[o['name']].tolist()}
             for o in case['outs']:
                 for v in case['ins']:
                     if (case['flavour'] == 'hd_nonelem' and size_of(o['shape']) > 1 and
@@ -1257,6 +1301,7 @@ class C14(Property):
                          ('var' if any(v['units'] for v in case['ins']) else 'none')),
              'convert=%s' % any(v['factor'] != 1.0 for v in case['ins']),
              'fac=%s' % case['fac'], 'flavour=' + case['flavour'],
+             'cs_hist=%s' % bool(case.get('cs_hist')),
              'n_out=%d' % len(case['outs']), 'n_in=%d' % len(case['ins']),
              'shape=' + 'x'.join(str(s) for s in max((v['shape'] for v in case['ins']),
                                                      key=lambda s: (size_of(s), len(s)))),
